@@ -357,3 +357,12 @@ End WithWidths.
 
 (* the three things _finalize can start a select chain from (used by the generated Gen/CondRules.v) *)
 Inductive dsel := DDeclared | DSelf | DZero.
+
+(* helpers used by the generated Gen/CondRules.v (python list idioms) *)
+Definition is_oth (c : cond) : bool := match c with COth => true | CP _ => false end.
+
+Fixpoint enum_from (i : Z) (l : list cond) : list (Z * cond) :=
+  match l with
+  | [] => []
+  | x :: r => (i, x) :: enum_from (i + 1) r
+  end.
